@@ -123,11 +123,11 @@ def enumerations(tier, shard, nshards):
         from vf import idx
 
         # 1300 records of exactly 128 bytes: records end on every 64 KiB boundary of the uncompressed stream
-        for stable, n in ((False, 1300), (True, 700)):
+        for stable, n in ((False, 4400), (True, 700)):
             g, case = idx.big_file_case(41, n, stable, line_len=128 if not stable else 256, block=65280, canonical=True)
             canon = []
             for l in case["gaf"]:
                 canon.append(l)
             yield {"gfa": case["gfa"], "gaf": canon, "dir": "s2u2s" if stable else "u2s2u", "bgzf": case["bgzf"]}
 
-    yield ("large BGZF files whose records end exactly on 64 KiB boundaries (1300 x 128 B unstable, 700 x 256 B stable)", gen(), True)
+    yield ("large BGZF files whose records end exactly on 64 KiB boundaries (4400 x 128 B unstable, 700 x 256 B stable)", gen(), True)
